@@ -119,7 +119,11 @@ func requireOnSuccessIdx(c *fw.Ctx, rule, fname string, fn *ssa.Function, idx in
 					// the result of an unexported helper (a method of a request object, a function
 					// with several results) that the expansion could not open
 					if fw.AtomCallsUnexportedHelper(l.Atom) || strings.Contains(l.Atom, "dyn(") {
-						if hs := fw.AtomHelpers(l.Atom); len(hs) > 0 && n.probe != "" {
+						hs := fw.AtomHelpers(l.Atom)
+						if len(hs) == 0 {
+							hs = mentionedHelpers(c, l.Atom)
+						}
+						if len(hs) > 0 && n.probe != "" {
 							any := false
 							for _, h := range hs {
 								if regionCalls(h, n.probe) {
@@ -267,9 +271,12 @@ func mentionedHelpers(c *fw.Ctx, atom string) []*ssa.Function {
 			}
 		}
 	}
+	// only a helper whose result is what the atom tests (the rendering starts with its call):
+	// a helper result that is merely handed on as an argument decides nothing here
+	t := strings.TrimLeft(atom, "!(*&")
 	var out []*ssa.Function
-	for _, m := range helperInAtom.FindAllStringSubmatch(atom, -1) {
-		if f := srcFuncIndex[m[1]]; f != nil && !stopExported(f) {
+	if loc := helperInAtom.FindStringSubmatchIndex(t); loc != nil && loc[0] == 0 {
+		if f := srcFuncIndex[t[loc[2]:loc[3]]]; f != nil && !stopExported(f) {
 			out = append(out, f)
 		}
 	}
@@ -349,7 +356,8 @@ func checkC15(c *fw.Ctx) {
 			nd("the state key is not empty", false, ".StateKeyEquals("+ev+",\"\")"),
 			nd("the state key equals the sender", true, ".StateKeyEquals("+ev+",(gmsl.PDU).SenderID("+ev+"))"),
 			nd("the sender resolves to a user", true, "dyn(*&param:input.UserIDQuerier)(*&param:input.RoomID,(gmsl.PDU).SenderID("+ev+"))#1 == nil)"),
-			nd("the sender belongs to the requesting server", true, ".Domain(dyn(*&param:input.UserIDQuerier)(", " == *&param:input.RequestOrigin)"),
+			// (a helper that never asks for a domain cannot make this comparison)
+			{what: "the sender belongs to the requesting server", alts: []lit{{[]string{".Domain(dyn(*&param:input.UserIDQuerier)(", " == *&param:input.RequestOrigin)"}, true}}, probe: ".Domain", about: []string{"RequestOrigin"}},
 			nd("the room ID matches the request", true, ".RoomID("+ev+")) == (gmsl/spec.RoomID).String(*&param:input.RoomID))"),
 			nd("the event ID matches the request", true, ".EventID("+ev+") == *&param:input.EventID)"),
 			nd("the membership is readable", true, ".Membership("+ev+")#1 == nil)"),
